@@ -39,9 +39,48 @@ pub fn is_valid_identifier(s: &str) -> bool {
 pub fn format_record_key(key: &str) -> String {
     if is_valid_identifier(key) {
         key.to_string()
+    } else if key.contains('"') && key.contains('\'') {
+        // No single literal can hold both quote characters: use a computed key
+        format!("[{}]", string_to_source(key))
     } else {
-        format!("\"{}\"", key.replace('\\', "\\\\").replace('"', "\\\""))
+        string_to_source(key)
     }
+}
+
+/// Source text of a string. String literals have no escape sequences, so the literal is
+/// delimited by the quote character that does not occur in it; a string containing both
+/// quote characters is written as a concatenation of literals.
+pub fn string_to_source(s: &str) -> String {
+    if !s.contains('"') {
+        return format!("\"{}\"", s);
+    }
+    if !s.contains('\'') {
+        return format!("'{}'", s);
+    }
+    let mut parts: Vec<String> = Vec::new();
+    let mut current = String::new();
+    let mut current_is_double_quotes = false;
+    for c in s.chars() {
+        let is_double_quote = c == '"';
+        if !current.is_empty() && is_double_quote != current_is_double_quotes {
+            parts.push(if current_is_double_quotes {
+                format!("'{}'", current)
+            } else {
+                format!("\"{}\"", current)
+            });
+            current.clear();
+        }
+        current_is_double_quotes = is_double_quote;
+        current.push(c);
+    }
+    if !current.is_empty() {
+        parts.push(if current_is_double_quotes {
+            format!("'{}'", current)
+        } else {
+            format!("\"{}\"", current)
+        });
+    }
+    format!("({})", parts.join(" + "))
 }
 
 pub fn expr_to_source(spanned_expr: &SpannedExpr) -> String {
@@ -53,7 +92,7 @@ pub fn expr_to_source(spanned_expr: &SpannedExpr) -> String {
                 n.to_string()
             }
         }
-        Expr::String(s) => format!("\"{}\"", s.replace("\\", "\\\\").replace("\"", "\\\"")),
+        Expr::String(s) => string_to_source(s),
         Expr::Bool(b) => b.to_string(),
         Expr::Null => "null".to_string(),
         Expr::Identifier(name) => name.clone(),
@@ -287,7 +326,7 @@ pub fn expr_to_source_with_scope(
                 n.to_string()
             }
         }
-        Expr::String(s) => format!("\"{}\"", s.replace("\\", "\\\\").replace("\"", "\\\"")),
+        Expr::String(s) => string_to_source(s),
         Expr::Bool(b) => b.to_string(),
         Expr::Null => "null".to_string(),
         Expr::BuiltIn(built_in) => built_in.name().to_string(),
@@ -464,9 +503,7 @@ fn serializable_value_to_source(value: &SerializableValue) -> String {
         }
         SerializableValue::Bool(b) => b.to_string(),
         SerializableValue::Null => "null".to_string(),
-        SerializableValue::String(s) => {
-            format!("\"{}\"", s.replace("\\", "\\\\").replace("\"", "\\\""))
-        }
+        SerializableValue::String(s) => string_to_source(s),
         SerializableValue::List(items) => {
             let items_str: Vec<String> = items.iter().map(serializable_value_to_source).collect();
             format!("[{}]", items_str.join(", "))
